@@ -954,7 +954,13 @@ impl<'b> InnerBucket<'b> {
             self.put_leaf(Leaf::Bucket(name, meta))?;
         }
 
-        let root = self.nodes[self.page_node_ids[&self.meta.root_page] as usize].clone();
+        let root_id = match self.page_node_ids.get(&self.meta.root_page) {
+            Some(id) => *id,
+            // Rebalancing promoted a child page that was never loaded as a node
+            // to be the root, so there is nothing left to write for this bucket.
+            None => return Ok(self.meta),
+        };
+        let root = self.nodes[root_id as usize].clone();
         let mut root = root.borrow_mut();
         let page_id = root
             .spill(self, tx_freelist, None)?
